@@ -446,6 +446,37 @@ fn conformance_part(ctx: &mut Ctx, tier: Tier) {
     part.exhaustive = true;
     t.into_part(ctx, part);
 
+    // call pairs on one thread: the second call's result must not depend on the parameters of the first (a memo of
+    // width-dependent constants keyed by too little shows when two calls agree in sigma' but not in sigma_min, or in
+    // the centre but not in the width)
+    {
+        let cs2 = cells();
+        let probe: Vec<Ans> = vec![Ans { z0: 0, hi_edge: true, b: 1, ber: 1 }, Ans { z0: 1, hi_edge: false, b: 0, ber: 3 }, Ans { z0: 2, hi_edge: true, b: 1, ber: 1 }, Ans { z0: 0, hi_edge: false, b: 0, ber: 2 }];
+        let pairs: Vec<(usize, usize)> = (0..cs2.len()).flat_map(|i| (0..cs2.len()).map(move |j| (i, j))).collect();
+        let t = pairs
+            .par_iter()
+            .map(|&(i, j)| {
+                let (c1, c2) = (cs2[i], cs2[j]);
+                let pr = probe.clone();
+                crate::sched::on_fresh_thread(move || {
+                    let mut t = Tally::default();
+                    for a in &pr {
+                        let b1 = answer_bytes(c1.0, c1.1, c1.2, *a);
+                        let mut dummy = Tally::default();
+                        run_script(&mut dummy, c1.0, c1.1, c1.2, &[b1]);
+                        let b2 = answer_bytes(c2.0, c2.1, c2.2, *a);
+                        run_script(&mut t, c2.0, c2.1, c2.2, &[b2]);
+                    }
+                    t
+                })
+                .unwrap_or_default()
+            })
+            .reduce(Tally::default, reduce);
+        let mut part = Part::new("sampler_z_call_pairs", &format!("every ordered pair of the {} (mu, sigma', sigma_min) cells on one fresh thread, four probing answers each (comparison bytes just below / exactly at / just above the threshold): the second call is compared with the specification's SamplerZ on its own parameters and bytes", cs2.len()));
+        part.exhaustive = true;
+        t.into_part(ctx, part);
+    }
+
     // long rejection runs: k rejected iterations (k up to 64, thorough 256) followed by one accepted
     let kmax = if tier.thorough() { 256 } else { 64 };
     let rejecting: Vec<Ans> = vec![Ans { z0: 0, hi_edge: true, b: 0, ber: 4 }, Ans { z0: 3, hi_edge: false, b: 1, ber: 3 }, Ans { z0: 18, hi_edge: false, b: 0, ber: 4 }];
